@@ -4,7 +4,7 @@
    extracted inductives.  No Extract Constant / Extract Inductive of our own. *)
 From Coq Require Import ExtrOcamlBasic.
 From Coq Require Import List ZArith NArith.
-From IprV Require Import RBModel Comparators Scope Subst.
+From IprV Require Import RBModel Comparators Scope Subst Region.
 (* stable, unambiguous names for the driver *)
 Definition rb_find := RBModel.find.
 Definition rb_elements := RBModel.elements.
@@ -21,6 +21,9 @@ Definition scope_select := Scope.select.
 Definition scope_decl_set := Scope.decl_set.
 Definition scope_master := Scope.master.
 Definition scope_h_run := Scope.h_run.
+Definition region_run := Region.run.
+Definition region_outward := Region.outward.
+Definition region_is_global := Region.is_global.
 Definition subst_elem := Subst.elem_apply.
 Definition subst_gen (bs : list (nat * Subst.expr)) (q : nat) := Subst.gen_apply (Subst.build bs) q.
 
@@ -30,4 +33,5 @@ Extraction "extracted/model.ml"
   Comparators.int_cmp Comparators.lex_cmp Comparators.pair_cmp
   Z.sub Z.add Z.of_nat Z.to_nat N.of_nat N.to_nat
   scope_run scope_elements scope_types scope_lookup scope_select scope_decl_set scope_master scope_h_run
-  subst_elem subst_gen.
+  subst_elem subst_gen
+  region_run region_outward region_is_global.
